@@ -3,16 +3,17 @@
    affected-row counts, RETURNING rows, errors; COUNT star = number of rows; WHERE and SET
    expressions by the shared SQL semantics Model/SqlSpec.v).
    Mechanism model: Model/Tombstone.v (B-tree entries with DELETE_BIT, header row_count, unique
-   index of the key column, row-id counter).  `trace false` / `run false` = the code as it is,
-   `trace true` = with the proposed repairs.  A trace lists, statement by statement, the
-   result, the visible rows and COUNT star.  hist_class = the first recorded finding class a
-   history runs into (0 = none; -1 = outside the modelled fragment). *)
+   index of the key column, row-id counter).  `trace false` / `run false` = the code as it is
+   (after the upstream repairs of DELETE / UPDATE / TRUNCATE), `trace true` = with the proposed
+   repair of INSERT as well, `trace_old` / `step_old` = the code before the upstream repairs.  A trace lists, statement by statement, the
+   result, the visible rows and COUNT star.  hist_class = 4 if the history contains an INSERT that fails
+   after writing a row (the one open finding class), 0 = none, -1 = outside the modelled fragment. *)
 From Coq Require Import ZArith List Bool.
 From TV Require Import Model.SqlSpec Model.DmlSpec Model.Tombstone Proof.TombBase Proof.TombSame Proof.TombMain.
 Import ListNotations.
 Open Scope Z_scope.
 
-(* ---- the code as it is: for every schema and every history outside the finding classes, every
+(* ---- the code as it is: for every schema and every history outside the finding class, every
         statement reports the reference's affected-row count and RETURNING rows (or its error),
         the table holds exactly the reference's rows and COUNT star is their number *)
 Theorem tomb_refines_bag :
@@ -24,7 +25,7 @@ Check tomb_refines_bag :
     spec_trace sch [] h = Some tr -> trace false sch t_empty h = tr.
 Print Assumptions tomb_refines_bag.
 
-(* ---- the mechanism with the proposed repairs: ALL histories of the modelled fragment *)
+(* ---- the mechanism with the proposed INSERT repair: ALL histories of the modelled fragment *)
 Theorem repaired_refines :
   forall sch h tr, wf_schema sch -> spec_trace sch [] h = Some tr ->
     modelled_trace (trace true sch t_empty h) -> trace true sch t_empty h = tr.
@@ -34,7 +35,7 @@ Check repaired_refines :
     modelled_trace (trace true sch t_empty h) -> trace true sch t_empty h = tr.
 Print Assumptions repaired_refines.
 
-(* ---- the recorded classes are the ONLY difference between the code and its repair *)
+(* ---- the recorded class is the ONLY difference between the code and its repair *)
 Theorem step_same :
   forall sch st s, stmt_class sch st s = 0 -> step false sch st s = step true sch st s.
 Proof. exact TombSame.step_same. Qed.
@@ -54,71 +55,62 @@ Check count_star_exact :
 Print Assumptions count_star_exact.
 
 (* ---- deleted rows never reappear: a row id that has been handed out and is not visible is not
-        visible after any further statements (from every state, reachable or not) *)
+        visible after any further statements -- ALL histories, from every state, the code as it
+        is (fx = false) and with the proposed INSERT repair (fx = true) *)
 Theorem never_reappear :
-  forall sch h st id, hist_class sch st h = 0 -> id < nextid st -> live_id st id = false ->
-    live_id (run false sch st h) id = false.
+  forall fx sch h st id, id < nextid st -> live_id st id = false -> live_id (run fx sch st h) id = false.
 Proof. exact TombMain.never_reappear. Qed.
 Check never_reappear :
-  forall sch h st id, hist_class sch st h = 0 -> id < nextid st -> live_id st id = false ->
-    live_id (run false sch st h) id = false.
+  forall fx sch h st id, id < nextid st -> live_id st id = false -> live_id (run fx sch st h) id = false.
 Print Assumptions never_reappear.
 
-Theorem never_reappear_repaired :
-  forall sch h st id, id < nextid st -> live_id st id = false -> live_id (run true sch st h) id = false.
-Proof. exact TombMain.never_reappear_repaired. Qed.
-Check never_reappear_repaired :
-  forall sch h st id, id < nextid st -> live_id st id = false -> live_id (run true sch st h) id = false.
-Print Assumptions never_reappear_repaired.
-
-(* ---- every exclusion is necessary: one concrete history per finding class on which the code
-        as it is differs from the reference (each is replayed on the real Database by every
-        check, known_findings.d/C05.json) *)
-Theorem classes_refuted :
-  refuted 1 s2 h_redelete /\ refuted 2 s2 h_resurrect /\ refuted 3 s2 h_truncate /\
-  refuted 4 p2 h_partial /\ refuted 5 p2 h_onepass /\ refuted 6 s3 h_mix /\ refuted 7 s2 h_nullarith.
-Proof.
-  exact (conj class1_refuted (conj class2_refuted (conj class3_refuted (conj class4_refuted
-        (conj class5_refuted (conj class6_refuted class7_refuted)))))).
-Qed.
-Check classes_refuted :
-  refuted 1 s2 h_redelete /\ refuted 2 s2 h_resurrect /\ refuted 3 s2 h_truncate /\
-  refuted 4 p2 h_partial /\ refuted 5 p2 h_onepass /\ refuted 6 s3 h_mix /\ refuted 7 s2 h_nullarith.
-Print Assumptions classes_refuted.
-
-(* ---- UPDATE of a deleted row makes it visible again; after a repeated DELETE COUNT star is 0
-        while a row is visible *)
-Theorem never_reappear_refuted :
-  let st := run false s2 t_empty [ins1 1 10; SDelete (id_is 1) false] in
-  live_id st 1 = false /\ 1 < nextid st /\
-  live_id (run false s2 st [SUpdate [(1%nat, ELit (VInt 5))] (id_is 1) false]) 1 = true.
-Proof. exact TombMain.never_reappear_refuted. Qed.
-Check never_reappear_refuted :
-  let st := run false s2 t_empty [ins1 1 10; SDelete (id_is 1) false] in
-  live_id st 1 = false /\ 1 < nextid st /\
-  live_id (run false s2 st [SUpdate [(1%nat, ELit (VInt 5))] (id_is 1) false]) 1 = true.
-Print Assumptions never_reappear_refuted.
+(* ---- the remaining exclusion is necessary: a multi-row INSERT whose second row is a duplicate
+        keeps its first row and leaves COUNT star stale (replayed on the real Database by every
+        check, known_findings.d/C05.json F-C05-4) *)
+Theorem class4_refuted : refuted 4 p2 h_partial.
+Proof. exact TombMain.class4_refuted. Qed.
+Check class4_refuted : refuted 4 p2 h_partial.
+Print Assumptions class4_refuted.
 
 Theorem count_star_refuted :
-  let st := run false s2 t_empty h_redelete in count_star st = 0 /\ visible st = [[VInt 2; VInt 20]].
+  let st := run false p2 t_empty h_partial in count_star st = 1 /\ zlen (visible st) = 2.
 Proof. exact TombMain.count_star_refuted. Qed.
 Check count_star_refuted :
-  let st := run false s2 t_empty h_redelete in count_star st = 0 /\ visible st = [[VInt 2; VInt 20]].
+  let st := run false p2 t_empty h_partial in count_star st = 1 /\ zlen (visible st) = 2.
 Print Assumptions count_star_refuted.
 
-(* ---- the refuting histories are answered correctly by the repaired mechanism *)
-Theorem repaired_witnesses :
-  Forall (fun p => exists tr, spec_trace (fst p) [] (snd p) = Some tr /\ trace true (fst p) t_empty (snd p) = tr)
-    [(s2, h_redelete); (s2, h_resurrect); (s2, h_truncate); (p2, h_partial); (p2, h_onepass); (s3, h_mix); (s2, h_nullarith)].
-Proof. exact TombMain.repaired_witnesses. Qed.
-Check repaired_witnesses :
-  Forall (fun p => exists tr, spec_trace (fst p) [] (snd p) = Some tr /\ trace true (fst p) t_empty (snd p) = tr)
-    [(s2, h_redelete); (s2, h_resurrect); (s2, h_truncate); (p2, h_partial); (p2, h_onepass); (s3, h_mix); (s2, h_nullarith)].
-Print Assumptions repaired_witnesses.
+(* ---- the six findings repaired upstream (re-DELETE, UPDATE of a deleted row, TRUNCATE count,
+        RETURNING on the primary-key path, SET evaluation order, NULL arithmetic): on each
+        witness the code before the repairs differed from the reference, the code as it is
+        agrees with it, and the history is outside every class *)
+Theorem former_classes_repaired :
+  repaired_on s2 h_redelete /\ repaired_on s2 h_resurrect /\ repaired_on s2 h_truncate /\
+  repaired_on p2 h_onepass /\ repaired_on s3 h_mix /\ repaired_on s2 h_nullarith.
+Proof. exact TombMain.former_classes_repaired. Qed.
+Check former_classes_repaired :
+  repaired_on s2 h_redelete /\ repaired_on s2 h_resurrect /\ repaired_on s2 h_truncate /\
+  repaired_on p2 h_onepass /\ repaired_on s3 h_mix /\ repaired_on s2 h_nullarith.
+Print Assumptions former_classes_repaired.
+
+(* ---- ... and outside the former classes those repairs changed nothing *)
+Theorem step_old_same :
+  forall sch st s, old_class sch st s = 0 -> step_old sch st s = step false sch st s.
+Proof. exact TombSame.step_old_same. Qed.
+Check step_old_same :
+  forall sch st s, old_class sch st s = 0 -> step_old sch st s = step false sch st s.
+Print Assumptions step_old_same.
+
+(* ---- the open witness is answered correctly by the mechanism with the proposed repair *)
+Theorem repaired_witness :
+  exists tr, spec_trace p2 [] h_partial = Some tr /\ trace true p2 t_empty h_partial = tr.
+Proof. exact TombMain.repaired_witness. Qed.
+Check repaired_witness :
+  exists tr, spec_trace p2 [] h_partial = Some tr /\ trace true p2 t_empty h_partial = tr.
+Print Assumptions repaired_witness.
 
 (* ---- non-vacuity: a PRIMARY KEY schema is well-formed, and a history with INSERT (multi-row,
         RETURNING), DELETE by key and by predicate, UPDATE with expressions, a refused
-        duplicate, and statements that run while the table holds tombstones is outside every
+        duplicate, a repeated DELETE and UPDATEs whose predicates match tombstoned rows is outside every
         class, defined in the reference and inside the modelled fragment *)
 Definition pk3 : schema := mkSchema KPk [TInt; TInt; TText] [false; false; false].
 Definition h_ok : list stmt :=
@@ -128,7 +120,10 @@ Definition h_ok : list stmt :=
    SUpdate [(1%nat, EArith AAdd (ECol 1) (ELit (VInt 1))); (2%nat, ELit (VText [122]))] (Some (ECmp CGt (ECol 1) (ELit (VInt 5)))) true;
    SDelete (Some (ECmp CGt (ECol 1) (ELit (VInt 30)))) false;
    SInsert [[VInt 2; VInt 7; VText [99]]] false;
-   SDelete (id_is 2) true].
+   SDelete (id_is 2) true;
+   SDelete (id_is 2) true;                                    (* re-DELETE of a deleted key *)
+   SUpdate [(1%nat, ELit (VInt 9))] (id_is 2) true;           (* UPDATE of a deleted key *)
+   SUpdate [(1%nat, ELit (VInt 9)); (2%nat, ELit VNull)] (Some (ECmp CLt (ECol 1) (ELit (VInt 100)))) true].
 Example wf_pk3 : wf_schema pk3.
 Proof. intros _. eexists. reflexivity. Qed.
 Example h_ok_in_scope :
